@@ -413,20 +413,24 @@ PATS = [None, "*", "a", "a*", "*a", "\\*", "a\\*", ".", "a.", "\\", "a\\", "\\a"
 PSETS = [[None, "a\\*"], [None, "p*"], [None, "a*"], PATS]
 
 
-def make_filter(eng, nname, npat_sel=2):
+PSETS_RICH = [[None, "inv"], [None, "*", "c*", "cm", "cm:variable", "p*"], [None, "*", "cache", "variable:cache", "*cache", "v*", "a*"], [None, "*", "a", "\\*"]]
+
+
+def make_filter(eng, nname, npat_sel=2, rich=False):
     """2 inventories x 1..2 domains x 1..2 types x 2 names (symbolic names), pattern quadruple chosen from PATS."""
     inv = M["myst_parser.inventory"]
     alpha = "a*\\.b"
     names = [new_str(eng, "n0", nname, alphabet=alpha), "zz1", new_str(eng, "n2", nname, alphabet=alpha), "a"]
+    PSETS = PSETS_RICH if rich else globals()["PSETS"]
     sel = [new_int(eng, "pat%d" % i, 0, len(PSETS[i]) - 1) for i in range(4)]
-    eng.witness_fn = lambda m: {"names": [eng.eval_model(m, x) for x in names], "patterns": [PSETS[i][eng.eval_model(m, s)] for i, s in enumerate(sel)]}
+    eng.witness_fn = lambda m: {"names": [eng.eval_model(m, x) for x in names], "patterns": [PSETS[i][eng.eval_model(m, s)] for i, s in enumerate(sel)], "rich": rich}
 
     def body():
         pats = [PSETS[i][eng.concretize_int(s)] for i, s in enumerate(sel)]
         n0, n1, n2, n3 = [x if isinstance(x, str) else lift(x) for x in names]
         # names within one dict must be distinct keys: assume pairwise different where they share a dict
         eng.assume(b_not(SStr.of(n2)._eq(n3)))
-        inventories = build_inventories([n0, n1, n2, n3])
+        inventories = build_inventories([n0, n1, n2, n3], rich)
         res = list(inv.filter_inventories(inventories, invs=pats[0], domains=pats[1], otypes=pats[2], targets=pats[3]))
         # specification: nested iteration order, all four coordinates match in full
         exp = []
@@ -469,8 +473,16 @@ def idata_base(inventories, iname):
     return inventories[iname]["base_url"]
 
 
-def build_inventories(ns):
+def build_inventories(ns, rich=False):
     n0, n1, n2, n3 = ns
+    if rich:
+        # an object type may contain ':' (only the first ':' of a Sphinx key separates the domain)
+        return {
+            "inv": {"name": "P", "version": "1", "base_url": "https://x/", "objects": {
+                "cm": {"variable:cache": {n0: {"loc": "l0", "text": None}, n1: {"loc": "l1", "text": "T1"}}, "variable": {n2: {"loc": "l2", "text": None}}},
+                "py": {"cache": {n3: {"loc": "l3", "text": None}}},
+            }},
+        }
     return {
         "inv": {"name": "P", "version": "1", "base_url": "https://x/", "objects": {
             "py": {"a.b": {n0: {"loc": "l0", "text": None}, n1: {"loc": "l1", "text": "T1"}}, "*": {"zz": {"loc": "l4", "text": None}}},
@@ -484,7 +496,7 @@ def build_inventories(ns):
 TARGETS = ["a", "a*", "*", "ab", "\\*", "b", "*b"]
 
 
-def make_invlink(eng, nname):
+def make_invlink(eng, nname, bases=(0,)):
     """'inv:' links through the real render_link_inventory / get_inventory_matches / filter_inventories with an
     inventory whose entry names are symbolic: 0 matches -> one iref_missing warning and no reference; 1 -> reference to
     base_url + loc; > 1 -> one iref_ambiguous warning and the FIRST match in inventory order."""
@@ -494,7 +506,8 @@ def make_invlink(eng, nname):
     names = [new_str(eng, "n%d" % i, nname, alphabet="ab*") for i in range(3)]
     tsel = new_int(eng, "target", 0, len(TARGETS) - 1)
     explicit = new_int(eng, "explicit", 0, 1)
-    eng.witness_fn = lambda m: {"names": [eng.eval_model(m, x) for x in names], "target": TARGETS[eng.eval_model(m, tsel)], "explicit": eng.eval_model(m, explicit)}
+    bsel = new_int(eng, "base", 0, len(bases) - 1)
+    eng.witness_fn = lambda m: {"names": [eng.eval_model(m, x) for x in names], "target": TARGETS[eng.eval_model(m, tsel)], "explicit": eng.eval_model(m, explicit), "base": bases[eng.eval_model(m, bsel)]}
 
     def body():
         ns = [lift(x) for x in names]
@@ -503,9 +516,10 @@ def make_invlink(eng, nname):
         eng.assume(b_not(SStr.of(ns[1])._eq(ns[2])))
         target = TARGETS[eng.concretize_int(tsel)]
         ex = bool(eng.concretize_int(explicit))
-        got = run_invlink(CR, CR.R["base"], ns, target, ex)
+        bi = bases[eng.concretize_int(bsel)]
+        got = run_invlink(CR, CR.R["base"], ns, target, ex, bi=bi)
         exp = [i for i, n in enumerate(ns) if T(spec_match_sym(n, target))]
-        check_invlink(eng, got, exp, ex)
+        check_invlink(eng, got, exp, ex, bi)
         if len(exp) != 1:
             eng.note("filter_nontrivial")
         return len(exp)
@@ -517,12 +531,15 @@ def T(v):
     return v if isinstance(v, bool) else bool(v)
 
 
-def run_invlink(CR, base, ns, target, explicit, real=False):
+BASES = ["https://base.invalid/root/", "https://base.invalid/root", None, "https://base.invalid/root/index.html/"]
+
+
+def run_invlink(CR, base, ns, target, explicit, real=False, bi=0):
     from docutils import nodes
     from markdown_it.token import Token
 
     ctx = CR.new_context(real=real, config={"inventories": {"k": ("https://base.invalid/root/", None)}})
-    inv_data = {"name": "P", "version": "1", "base_url": "https://base.invalid/root/", "objects": {"std": {"label": {ns[0]: {"loc": "l0.html", "text": None}, ns[1]: {"loc": "l1.html#x", "text": "T1"}},
+    inv_data = {"name": "P", "version": "1", "base_url": BASES[bi], "objects": {"std": {"label": {ns[0]: {"loc": "l0.html", "text": None}, ns[1]: {"loc": "l1.html#x", "text": "T1"}},
                                                                                                         "doc": {ns[2]: {"loc": "l2.html", "text": None}}}}}
     saved = base.inventory.fetch_inventory
     base.inventory.fetch_inventory = lambda *a, **k: inv_data
@@ -541,10 +558,12 @@ def run_invlink(CR, base, ns, target, explicit, real=False):
     return refs, msgs, texts
 
 
-LOCS = ["https://base.invalid/root/l0.html", "https://base.invalid/root/l1.html#x", "https://base.invalid/root/l2.html"]
+RELLOCS = ["l0.html", "l1.html#x", "l2.html"]
 
 
-def check_invlink(eng, got, exp, explicit):
+def check_invlink(eng, got, exp, explicit, bi=0):
+    # "location joined to its base URL": the location is appended below the base, whether or not the base ends in '/'
+    LOCS = [(BASES[bi] + ("" if BASES[bi].endswith("/") else "/") + l) if BASES[bi] else l for l in RELLOCS]
     refs, msgs, texts = got
     nmiss = sum(1 for m in msgs if "[myst.iref_missing]" in m)
     namb = sum(1 for m in msgs if "[myst.iref_ambiguous]" in m)
@@ -574,6 +593,10 @@ def families(tier, seed):
     for nn in ([1, 2] if q else [2, 3]):
         F.append(Family("F/names%d" % nn, make_filter, "2 inventories / 3 domain:type groups / 5 entries, 2 symbolic names of %d chars over 'a*\\\\.b', filter quadruple from %d patterns each" % (nn, len(PATS)),
                         args=dict(nname=nn), nontrivial="filter_nontrivial", required=(nn <= 1 if q else nn <= 2), max_forks=20000))
+    F.append(Family("L/bases", make_invlink, "inv: link against 3 entries with 1 symbolic name char each, base URL from %r (with / without trailing slash, none)" % (BASES,), args=dict(nname=1, bases=(0, 1, 2, 3)),
+                    nontrivial="filter_nontrivial", max_forks=40000))
+    F.append(Family("F/colon-types", make_filter, "inventories with an object type containing ':' ('cm' / 'variable:cache'), 2 symbolic names of 1 char, domain and type patterns from %r x %r" % (PSETS_RICH[1], PSETS_RICH[2]),
+                    args=dict(nname=1, rich=True), nontrivial="filter_nontrivial", max_forks=40000))
     for nn in ([1, 2] if q else [2, 3]):
         F.append(Family("L/names%d" % nn, make_invlink, "inv: link (explicit text / autolink) with target pattern from %r against an inventory of 3 entries with symbolic names of %d chars over 'ab*'" % (TARGETS, nn),
                         args=dict(nname=nn), nontrivial="filter_nontrivial", max_forks=40000, required=(nn <= 2)))
@@ -608,7 +631,7 @@ def replay(label, witness):
         if len(set(ns)) != 3:
             return None
         try:
-            got = run_invlink(CR, rbase, ns, target, ex, real=True)
+            got = run_invlink(CR, rbase, ns, target, ex, real=True, bi=witness.get("base", 0))
         except Exception as e:  # noqa
             return ("C19/invlink-exception:%s" % type(e).__name__, "%r" % (e,))
         exp = [i for i, n in enumerate(ns) if spec_match(n, target)]
@@ -619,7 +642,7 @@ def replay(label, witness):
                     raise AssertionError((label, detail))
 
         try:
-            check_invlink(CE(), got, exp, ex)
+            check_invlink(CE(), got, exp, ex, witness.get("base", 0))
         except AssertionError as a:
             label, detail = a.args[0]
             return ("C19/%s" % label, "inv:#%s over names %r (matching entries %r): %s; got %r" % (target, ns, exp, detail, got[:2]))
@@ -627,7 +650,7 @@ def replay(label, witness):
     names, pats = witness["names"], witness["patterns"]
     if names[0] == names[1] or names[2] == names[3]:
         return None
-    inventories = build_inventories(names)
+    inventories = build_inventories(names, witness.get("rich", False))
     try:
         res = list(real.filter_inventories(inventories, invs=pats[0], domains=pats[1], otypes=pats[2], targets=pats[3]))
         sph = {k: real.to_sphinx(v) for k, v in inventories.items()}
